@@ -177,11 +177,11 @@ func genC07(c *Ctx) {
 		{"ptr-ptr-empty-slice", tvPtr(tvPtr(tvSlice(1)))}, {"ptr-nil-slice", tvPtr(&TV{T: "slice", EI: 1, Nil: 1, V: []*TV{}})}, {"ptr-slice-of-nil", tvPtr(tvSlice(1, tvNil()))},
 		{"ptr-slice-of-empty-slices", tvPtr(tvSlice(1, tvSlice(1)))}} {
 		d := tvMap("str", [][2]any{{hx("l"), ev.tv}, {hx("orders"), tvSlice(1, tvMap("str", [][2]any{{hx("items"), ev.tv}}), tvStruct([][3]any{{"Items", 1, ev.tv}}))}})
-		for _, q := range []string{"$.l.name", "$.l.name?.Count()", "$.l.name.first", "$.l.First()", "$.l.Count()", "$.l[@.name.Equal(1)]", "$.orders.items.name", "$.orders[@.items.name.Count().Greater(0)]",
+		for _, q := range []string{"$.l.name", "$.l.name?.Count()", "$.l.name.first", "$.l.First()", "$.l.Last()", "$.l.Index(0)", "$.l.Last().Equal(1)", "$.l.Last().IsNull()", "$.l.Index(0).Add(1)", "{$.l.Last().IsNull()}", "$.l.Count()", "$.l[@.name.Equal(1)]", "$.orders.items.name", "$.orders[@.items.name.Count().Greater(0)]",
 			"$.orders[@.items.name?.IsNull()]", `$.l.Select("$.name")`, "$.l.name.Sum()", "{$.l.name?.IsNull()}"} {
 			c.Do(Case{Q: q, D: d, Cls: "named-by-property/empty-lists-behind-pointers/" + ev.name, InDomain: true})
 		}
-		for _, q := range []string{"$.name", "$.name?.Count()", "$[@.name.Equal(1)]", "$.First()", "$.Count()"} {
+		for _, q := range []string{"$.name", "$.name?.Count()", "$[@.name.Equal(1)]", "$.First()", "$.Last()", "$.Index(0)", "$.Last().Equal(1)", "$.Count()"} {
 			c.Do(Case{Q: q, D: ev.tv, Cls: "named-by-property/empty-lists-behind-pointers/" + ev.name + "/root", InDomain: true})
 		}
 	}
